@@ -5,6 +5,7 @@ import (
 	"fmt"
 	"net/http/httptest"
 	"strings"
+	"sync"
 	"sync/atomic"
 	"time"
 
@@ -135,6 +136,25 @@ func (m *Machine) ActShutdown(t *rapid.T) {
 	}
 	atomic.AddInt32(&m.mem.Explicit, 1)
 	done := make(chan error, 1)
+	// In half of the races the order is forced: a slow reader holds the runner's lock, the shutdown is called
+	// and has to wait for it, then the schedule request is made and queues up behind the shutdown, then the
+	// reader lets go. The request is made before the shutdown has done anything, and served after it.
+	behindReader := raceSchedule && len(ord) > 0 && len(m.definedPipelines()) > 0 && rapid.Bool().Draw(t, "raceBehindReader")
+	var releaseReader func()
+	if behindReader {
+		hold, entered := make(chan struct{}), make(chan struct{})
+		var once sync.Once
+		go m.w.PR.IterateJobs(func(*prunner.PipelineJob) {
+			once.Do(func() { close(entered); <-hold })
+		})
+		select {
+		case <-entered:
+			releaseReader = func() { close(hold) }
+		case <-time.After(2 * time.Second):
+			behindReader = false
+			close(hold)
+		}
+	}
 	go func() { done <- m.w.PR.Shutdown(ctx) }()
 
 	// a schedule request racing the start of the shutdown: accepted or refused, never left unfinished
@@ -142,8 +162,26 @@ func (m *Machine) ActShutdown(t *rapid.T) {
 	if raceSchedule && len(m.definedPipelines()) > 0 {
 		p := rapid.SampledFrom(m.definedPipelines()).Draw(t, "racePipeline")
 		def := m.w.Defs.Pipelines[p]
-		rseq := m.stimulus("  schedule %s racing the shutdown", p)
-		job, err := m.w.PR.ScheduleAsync(p, prunner.ScheduleOpts{})
+		rseq := m.stimulus("  schedule %s racing the shutdown (queued behind it: %v)", p, behindReader)
+		var job *prunner.PipelineJob
+		var err error
+		if behindReader {
+			time.Sleep(300 * time.Microsecond) // the shutdown waits for the lock
+			res := make(chan struct{})
+			go func() { defer close(res); job, err = m.w.PR.ScheduleAsync(p, prunner.ScheduleOpts{}) }()
+			time.Sleep(300 * time.Microsecond) // the request waits behind it
+			releaseReader()
+			select {
+			case <-res:
+			case <-time.After(StallLimit):
+				m.w.setBlocked("ScheduleAsync during shutdown")
+				m.blocked()
+				return
+			}
+			m.w.Stats.hit("shutdown:raced-request-queued-behind-shutdown")
+		} else {
+			job, err = m.w.PR.ScheduleAsync(p, prunner.ScheduleOpts{})
+		}
 		if err == nil && job != nil {
 			raced = &JobRec{ID: job.ID, Pipeline: p, Def: CopyPipeline(def), AcceptSeq: rseq, PipeGen: m.pipeGen[p], Delayed: def.StartDelay > 0, FailedTasks: map[string]bool{}, RacedShutdown: true}
 			if IsCyclic(def.Tasks) {
